@@ -52,6 +52,7 @@ def handle (op : String) (j : Json) : Option Json :=
     | some migs, some out =>
       let c := cfgOfJson j
       some (obj [("holds", Json.bool (Spec.Txn.framingOk c migs out)),
+                 ("balanced", Json.bool (Spec.Txn.balancedB out)),
                  ("framed", Json.bool (Spec.Txn.framed out)),
                  ("oneMigPerBlock", Json.bool (Spec.Txn.oneMigPerBlock out)),
                  ("countBegin", Spec.Txn.countBegin out),
